@@ -402,6 +402,9 @@ pub struct Sim {
     /// per simulated thread: the next scheduling point is logged (set at every iteration
     /// record, so the log shows whether numerical work followed a boundary)
     pub log_next_yield: [bool; 32],
+    /// hash over the bit patterns of everything every solve returned (status, iterations,
+    /// x, s, z, objectives, residuals - not solve_time): what "the same result" means
+    pub result_hash: u64,
 }
 
 impl Sim {
@@ -424,6 +427,13 @@ impl Sim {
             n_events: 0,
             cap_hit: false,
             log_next_yield: [false; 32],
+            result_hash: 0xcbf29ce484222325,
+        }
+    }
+    pub fn fold_result(&mut self, word: u64) {
+        for b in word.to_le_bytes() {
+            self.result_hash ^= b as u64;
+            self.result_hash = self.result_hash.wrapping_mul(0x100000001b3);
         }
     }
     pub fn push(&mut self, th: u8, kind: EvKind) {
